@@ -12,7 +12,9 @@ def check(index, ctx):
              "p-equivariant; configured per-objective vectors enter as (R,) values permuted with the rows")
     A, by_class = _agg.analysis(index)
     names = _agg.classes_named(index, INVARIANT, ctx, "R1")
+    ctx.rule("R2", "no triangular factorisation (Cholesky) of a bare Gramian J·Jᵀ: it processes the rows pivot by pivot and the Gramian is singular for linearly dependent rows")
     n = 0
+    chol: set = set()
     for name in names:
         for run in by_class[name]:
             if run.obj is None:
@@ -21,5 +23,12 @@ def check(index, ctx):
             for res in _agg.returning(run):
                 _agg.check_flag(ctx, "R1", name, run, res, ["p"])
                 n += 1
+                for e in res.events:
+                    if e["kind"] == "sop" and e.get("sop") == "cholesky" and e.get("bare_gramian") and e["loc"] not in chol:
+                        chol.add(e["loc"])
+                        ctx.violated("R2", f"{name}: {e['function'].split('.')[-1]}: `{e['text'][:60]}`",
+                                     "Cholesky factorisation of the bare Gramian J·Jᵀ, which is singular whenever the rows are linearly dependent (more rows than columns, a row that is a "
+                                     "combination of others): the factorisation then fails or succeeds on rounding noise, pivot by pivot in the order of the rows — the result of the solve "
+                                     "depends on that order although the rank is unambiguous (the pseudo-inverse does not)", e["loc"])
     ctx.floor("R1 returning paths", n, 13)
     _agg.common_evidence(ctx, index)
